@@ -110,9 +110,9 @@ def check_frame(case):
     metric("frame_err", d)
     if not d <= 1e-15:
         raise Fail("local frame columns are not (east, north, ellipsoid normal)", expected=want, observed=R)
-    if not float(np.abs(R.T @ R - np.eye(3)).max()) <= 4e-16:
+    if not float(np.abs(R.T @ R - np.eye(3)).max()) <= 2e-15:
         raise Fail("local frame is not orthonormal", observed=R.T @ R)
-    if not abs(float(np.linalg.det(R)) - 1.0) <= 1e-15:
+    if not abs(float(np.linalg.det(R)) - 1.0) <= 4e-15:
         raise Fail("local frame is not right-handed (det != +1)", observed=float(np.linalg.det(R)))
     v = np.array(case["v"], dtype=float)
     nv = float(np.linalg.norm(v))
